@@ -287,8 +287,9 @@ struct CountPolicy {
   static constexpr std::uint64_t HandleType() { return 9; }
 };
 using UH = nop::UniqueHandle<CountPolicy>;
-enum HOp { H_NEW, H_MOVE_ASSIGN, H_MOVE_CTOR, H_RELEASE, H_CLOSE, H_DESTROY, H_ASSIGN_TEMP, H_ASSIGN_EMPTY, H_NOPS };
-static const char* const kHNames[] = {"destroy+construct(id)", "move-assign", "move-construct(temp)", "release()", "close()", "destroy+construct()", "= UniqueHandle{id}", "= UniqueHandle{}"};
+struct DUH : UH { using UH::UH; };          // a class derived from UniqueHandle<Policy>, the shape of UniqueFileHandle: moving it into a UniqueHandle<Policy> transfers ownership
+enum HOp { H_NEW, H_MOVE_ASSIGN, H_MOVE_CTOR, H_RELEASE, H_CLOSE, H_DESTROY, H_ASSIGN_TEMP, H_ASSIGN_EMPTY, H_CTOR_FROM_DERIVED, H_ASSIGN_FROM_DERIVED, H_NOPS };
+static const char* const kHNames[] = {"destroy+construct(id)", "move-assign", "move-construct(temp)", "release()", "close()", "destroy+construct()", "= UniqueHandle{id}", "= UniqueHandle{}", "destroy+move-construct(from derived handle owning id)", "= std::move(derived handle owning id)"};
 struct HandleRun {
   static const int N = 3;
   UH* h[N]; int own[N] = {0, 0, 0}; int next_id = 1; std::set<int> issued, rel, must_closed;
@@ -308,6 +309,8 @@ struct HandleRun {
       case H_DESTROY: delete h[a]; drop(own[a]); h[a] = new UH(); own[a] = 0; break;
       case H_ASSIGN_TEMP: { int id = next_id++; issued.insert(id); *h[a] = UH(id); drop(own[a]); own[a] = id; } break;
       case H_ASSIGN_EMPTY: *h[a] = UH(); drop(own[a]); own[a] = 0; break;
+      case H_CTOR_FROM_DERIVED: { int id = next_id++; issued.insert(id); delete h[a]; drop(own[a]); { DUH d(id); h[a] = new UH(std::move(d)); if (d.get() != 0) fail("model:UniqueHandle.moved-from", fmt("a derived handle moved into a UniqueHandle still holds %d", d.get())); } own[a] = id; } break;
+      case H_ASSIGN_FROM_DERIVED: { int id = next_id++; issued.insert(id); { DUH d(id); *h[a] = std::move(d); if (d.get() != 0) fail("model:UniqueHandle.moved-from", fmt("a derived handle move-assigned into a UniqueHandle still holds %d", d.get())); } drop(own[a]); own[a] = id; } break;
     }
     check(false);
   }
@@ -331,7 +334,7 @@ struct HandleRun {
 static std::vector<OpRec> handle_alphabet() {
   std::vector<OpRec> al;
   for (int a = 0; a < HandleRun::N; a++) {
-    for (int op : {H_NEW, H_RELEASE, H_CLOSE, H_DESTROY, H_ASSIGN_TEMP, H_ASSIGN_EMPTY}) al.push_back({op, a, a, 0, -1});
+    for (int op : {H_NEW, H_RELEASE, H_CLOSE, H_DESTROY, H_ASSIGN_TEMP, H_ASSIGN_EMPTY, H_CTOR_FROM_DERIVED, H_ASSIGN_FROM_DERIVED}) al.push_back({op, a, a, 0, -1});
     al.push_back({H_MOVE_CTOR, a, a, 0, -1});
     for (int b = 0; b < HandleRun::N; b++) al.push_back({H_MOVE_ASSIGN, a, b, 0, -1});
   }
@@ -530,6 +533,19 @@ static void c15_transfer() {
       int rel = m.release(); if (fcntl(rel, F_GETFD) < 0) rep().violation("C15:filehandle-release-closed", "a released descriptor was closed", ""); ::close(rel); }
     if (fcntl(raw, F_GETFD) >= 0) rep().violation("C15:filehandle-not-closed", "descriptor still open after its UniqueFileHandle was destroyed", "");
     rep().count("c15_real_fd_cases"); rep().note(hash_str("real-fd"), true);
+    // a UniqueFileHandle moved into the UniqueHandle<FileHandlePolicy> it derives from (how a generic owner stores one): one owner, one close(2)
+    for (int how = 0; how < 3; how++) {
+      int fd = ::open("/dev/null", O_RDONLY); g_close_watch_fd = fd; g_close_calls = 0; bool open_while_owned = true, released_ok = true;
+      { nop::UniqueFileHandle u{fd};
+        if (how == 0) { nop::UniqueHandle<nop::FileHandlePolicy> base{std::move(u)}; open_while_owned = fcntl(fd, F_GETFD) >= 0 && base.get() == fd && !u; }
+        else if (how == 1) { nop::UniqueHandle<nop::FileHandlePolicy> base; base = std::move(u); open_while_owned = fcntl(fd, F_GETFD) >= 0 && base.get() == fd && !u; }
+        else { nop::UniqueHandle<nop::FileHandlePolicy> base{std::move(u)}; int got = base.release(); released_ok = got == fd && !base; } }
+      int calls = g_close_calls; g_close_watch_fd = -1;
+      rep().count("c15_file_handles_moved_into_their_base_class"); rep().note(hash_combine(hash_str("ufh-into-base"), (uint64_t)how), true);
+      if (!open_while_owned) rep().violation("C15:filehandle-derived-move", "a UniqueFileHandle moved into a UniqueHandle<FileHandlePolicy>: the source still holds the descriptor, or the new owner does not", "");
+      if (how < 2 && calls != 1) rep().violation("C15:filehandle-derived-move-close-count", fmt("a UniqueFileHandle moved into a UniqueHandle<FileHandlePolicy> (%s): close() was called %d times on the descriptor, expected once", how ? "move-assignment" : "move-construction", calls), "");
+      if (how == 2) { if (!released_ok || calls != 0 || fcntl(fd, F_GETFD) < 0) rep().violation("C15:filehandle-derived-move-release", fmt("a descriptor released by the UniqueHandle that took it over from a UniqueFileHandle was closed (%d close calls)", calls), ""); ::close(fd); }
+    }
     // an interrupted close(): the kernel has released the descriptor although close() reports EINTR; the owner must not close that number again
     for (int how = 0; how < 3; how++) {
       int fd = ::open("/dev/null", O_RDONLY); if (fd < 0) break;
